@@ -17,7 +17,8 @@ func checkC17(c *Ctx) {
 	c.Decided = "the index algebra of the tree layout: a Tree is immutable after construction (fields stored only by the constructor and the two wait-time setters); arithmetic on the branch factor occurs only in Parent, ChildrenOf, heightOf and treeHeight, from which all other views derive; " +
 		"the parent of position c is (c-1) div B and the children of position p are the positions p*B+1 .. p*B+B clamped to n (polynomial identities on the extracted expressions), so with B >= 2 every position >= 1 lies in the child range of exactly its parent; " +
 		"ChildrenOf guards its slice expression (known replica, start < n, end <= n) and the constructor rejects a position list without the replica and a branch factor below 2."
-	c.NotDec = "heights, SubTree closure as a functional property of its loop, and consistency across replicas that were configured with different position lists."
+	c.Decided += " The tree height is the exact level count (integer recurrence read off treeHeight's loop, stored by the constructor); the position table is never written through an alias."
+	c.NotDec = "per-replica heights (heightOf) and SubTree closure as functional properties of their loops (the tree height itself is decided: C17.5), and consistency across replicas that were configured with different position lists."
 	c.Expect("C17.1", 5)
 	c.Expect("C17.4", 3)
 	c.Expect("C17.5", 3)
